@@ -93,6 +93,8 @@ func (ft *FuncTr) call(st *State, at *Term, in ssa.Instruction, c *ssa.CallCommo
 		cname = c.Method.Name()
 	} else if b, ok := c.Value.(*ssa.Builtin); ok {
 		cname = b.Name()
+	} else if fname := fieldFuncName(c.Value); fname != "" {
+		cname = fname // call of a function stored in a struct field: field:<pkg>.<Type>.<field>
 	}
 	ft.curCallNth = ft.callOrdinal(in, cname)
 	if _, isB := c.Value.(*ssa.Builtin); !isB || cname == "append" || cname == "copy" {
@@ -145,6 +147,10 @@ func (ft *FuncTr) anchored(st *State, preCall *State, at *Term, in ssa.Instructi
 		if nth > 0 && ft.curCallNth != nth {
 			continue
 		}
+		if ft.anchorHit == nil {
+			ft.anchorHit = map[int]bool{}
+		}
+		ft.anchorHit[i] = true
 		env := ft.newEnv(st)
 		env.pos = in.Pos()
 		env.pre = preCall
@@ -850,6 +856,8 @@ func (ft *FuncTr) callOrdinal(in ssa.Instruction, cname string) int {
 					n = c.Method.Name()
 				} else if bi, ok := c.Value.(*ssa.Builtin); ok {
 					n = bi.Name()
+				} else if fname := fieldFuncName(c.Value); fname != "" {
+					n = fname
 				}
 				if n != "" {
 					byName[lastName(n)] = append(byName[lastName(n)], i2)
